@@ -124,8 +124,9 @@ class Installed:
         def join(worker, timeout=None):
             st = getattr(worker, "_vf_state", None)
             if st is not None and sched.managed():
-                sched.join(st)
-                real_join(worker, 10)
+                done = sched.join(st, may_time_out=timeout is not None)
+                if done:
+                    real_join(worker, 10)
                 return
             return real_join(worker, timeout)
 
